@@ -79,12 +79,15 @@ def run(prop, tier):
                        "classmethod/staticmethod, generators and coroutines are outside the enumerated domain"]
     try:
         # vacuity guards: deliberately wrong variants of the rule must be rejected by TLC on a small domain
-        for cfg, inv in GUARDS:
-            g = run_tlc("LogCall", cfg, timeout=300)
+        # (one worker each: the number of states visited before the violation is then deterministic; run beside the main model)
+        with ThreadPoolExecutor(max_workers=3) as ex:
+            gf = [ex.submit(run_tlc, "LogCall", cfg, workers=1, timeout=300) for cfg, _ in GUARDS]
+            rf = ex.submit(run_tlc, "LogCall", T["cfg"], timeout=T["timeout"])
+            guards, r = [f.result() for f in gf], rf.result()
+        for (cfg, inv), g in zip(GUARDS, guards):
             if g.violated != inv:
                 raise MachineryFailure("vacuity guard %s: expected %s to be violated, got %s %s" % (cfg, inv, g.violated, g.error))
             rep.add_tlc(cfg, g, {"guard": inv}, expect_violation=inv)
-        r = run_tlc("LogCall", T["cfg"], timeout=T["timeout"])
         require_ok(r, "LogCall " + T["cfg"])
         rep.add_tlc(T["cfg"], r, T["constants"])
         if r.violated:
